@@ -83,9 +83,11 @@ func (fop formOwnedPort) close(p *Port) {
 }
 
 func (op *pipelineOp) exec(fm *Frame) Exception {
+	verifTrace(fm.Evaler, fm, "pipeline.enter")
 	if fm.Canceled() {
 		return fm.errorp(op, ErrInterrupted)
 	}
+	verifTrace(fm.Evaler, fm, "pipeline.start")
 
 	if op.bg {
 		fm = fm.Fork()
